@@ -236,6 +236,54 @@ fn selection_campaign(report: &mut Report, n: usize) {
     }
 }
 
+type OpFacts = Vec<(String, Vec<String>, Option<Vec<String>>)>;
+
+/// OPERATION_NAME, Variables and ResponseData of the single generated module must all belong to one
+/// operation of the document (`facts`: per operation its name, variable names, plain root keys).
+fn colliding_problem(tokens: &str, facts: &OpFacts) -> Option<String> {
+    let file: syn::File = syn::parse_str(tokens).ok()?;
+    let mods: Vec<&syn::ItemMod> = file.items.iter().filter_map(|i| if let syn::Item::Mod(m) = i { Some(m) } else { None }).collect();
+    if mods.len() != 1 {
+        return Some(format!("{} modules generated for one struct", mods.len()));
+    }
+    let items = &mods[0].content.as_ref()?.1;
+    let mut opn = String::new();
+    let mut vars: Option<Vec<String>> = None;
+    let mut keys: Option<Vec<String>> = None;
+    for it in items {
+        match it {
+            syn::Item::Const(c) if c.ident == "OPERATION_NAME" => {
+                if let syn::Expr::Lit(syn::ExprLit { lit: syn::Lit::Str(s), .. }) = &*c.expr {
+                    opn = s.value();
+                }
+            }
+            syn::Item::Struct(s) if s.ident == "Variables" => {
+                let mut v: Vec<String> = s.fields.iter().map(super::c14::wire_name).collect();
+                v.sort();
+                vars = Some(v);
+            }
+            syn::Item::Struct(s) if s.ident == "ResponseData" => {
+                let mut v: Vec<String> = s.fields.iter().filter(|f| !f.attrs.iter().any(|a| a.to_token_stream().to_string().contains("flatten"))).map(super::c14::wire_name).collect();
+                v.sort();
+                keys = Some(v);
+            }
+            _ => {}
+        }
+    }
+    let Some((_, want_vars, want_keys)) = facts.iter().find(|(n, _, _)| n == &opn) else {
+        return Some(format!("OPERATION_NAME {:?} is not an operation of the document", opn));
+    };
+    if vars.as_ref() != Some(want_vars) {
+        return Some(format!("OPERATION_NAME is {:?} but Variables has the members {:?}; that operation declares {:?}", opn, vars, want_vars));
+    }
+    if let (Some(k), Some(w)) = (&keys, want_keys) {
+        if k != w {
+            return Some(format!("OPERATION_NAME is {:?} but ResponseData has the members {:?}; that operation selects {:?}", opn, k, w));
+        }
+    }
+    None
+}
+
 /// Two operations whose names coincide after normalization (`FetchName` / `fetch_name`): whichever
 /// one the struct selects, OPERATION_NAME, Variables and ResponseData must all come from it.
 fn collision_campaign(report: &mut Report, n: usize) {
@@ -293,49 +341,7 @@ fn collision_campaign(report: &mut Report, n: usize) {
         report.feature("selection:colliding-normalized-names");
         report.nontrivial.insert(fnv_str(&[schema, text, struct_name]));
         let Outcome::Ok(tokens) = o else { continue }; // refusing an ambiguous document is fine
-        let problem = (|| -> Option<String> {
-            let file: syn::File = syn::parse_str(tokens).ok()?;
-            let mods: Vec<&syn::ItemMod> = file.items.iter().filter_map(|i| if let syn::Item::Mod(m) = i { Some(m) } else { None }).collect();
-            if mods.len() != 1 {
-                return Some(format!("{} modules generated for one struct", mods.len()));
-            }
-            let items = &mods[0].content.as_ref()?.1;
-            let mut opn = String::new();
-            let mut vars: Option<Vec<String>> = None;
-            let mut keys: Option<Vec<String>> = None;
-            for it in items {
-                match it {
-                    syn::Item::Const(c) if c.ident == "OPERATION_NAME" => {
-                        if let syn::Expr::Lit(syn::ExprLit { lit: syn::Lit::Str(s), .. }) = &*c.expr {
-                            opn = s.value();
-                        }
-                    }
-                    syn::Item::Struct(s) if s.ident == "Variables" => {
-                        let mut v: Vec<String> = s.fields.iter().map(super::c14::wire_name).collect();
-                        v.sort();
-                        vars = Some(v);
-                    }
-                    syn::Item::Struct(s) if s.ident == "ResponseData" => {
-                        let mut v: Vec<String> = s.fields.iter().filter(|f| !f.attrs.iter().any(|a| a.to_token_stream().to_string().contains("flatten"))).map(super::c14::wire_name).collect();
-                        v.sort();
-                        keys = Some(v);
-                    }
-                    _ => {}
-                }
-            }
-            let Some((_, want_vars, want_keys)) = facts.iter().find(|(n, _, _)| n == &opn) else {
-                return Some(format!("OPERATION_NAME {:?} is not an operation of the document", opn));
-            };
-            if vars.as_ref() != Some(want_vars) {
-                return Some(format!("OPERATION_NAME is {:?} but Variables has the members {:?}; that operation declares {:?}", opn, vars, want_vars));
-            }
-            if let (Some(k), Some(w)) = (&keys, want_keys) {
-                if k != w {
-                    return Some(format!("OPERATION_NAME is {:?} but ResponseData has the members {:?}; that operation selects {:?}", opn, k, w));
-                }
-            }
-            None
-        })();
+        let problem = colliding_problem(tokens, facts);
         if let Some(p) = problem {
             let summary = format!("operation selection [two operations that normalize to one name, struct {}]: {}", struct_name, p);
             let replay = json!({"engine": "e2", "tape_hex": crate::tape::hex(tape), "schema": schema, "document": text, "mode": "derive-colliding", "name": struct_name, "normalization_rust": true, "facts": facts, "observed": o.short()});
@@ -448,6 +454,15 @@ fn replay_selection(report: &mut Report, v: &Value) {
     let qsrc = if v["via_path"].as_bool().unwrap_or(false) { QuerySrc::Path(scratch.file(&doc_text, "graphql")) } else { QuerySrc::Text(doc_text) };
     let o = Pool::default().run_alone(&Job { schema_path: sp, query: qsrc, opts, cwd: None });
     report.evaluations += 1;
+    if mode == "derive-colliding" {
+        let facts: OpFacts = serde_json::from_value(v["facts"].clone()).unwrap_or_default();
+        if let Outcome::Ok(tokens) = &o {
+            if let Some(p) = colliding_problem(tokens, &facts) {
+                report.violation("replay-colliding", &format!("replayed operation selection [two operations that normalize to one name]: {}", p), v.clone());
+            }
+        }
+        return;
+    }
     let want: Option<Vec<String>> = serde_json::from_value(v["expect"].clone()).ok().flatten();
     let ok = match (&o, &want) {
         (Outcome::Ok(t), Some(w)) => describe_tokens(t).map(|(m, _)| &m.iter().map(|x| x.1.clone()).collect::<Vec<_>>() == w && m.iter().all(|x| x.2 == v["document"].as_str().unwrap_or(""))).unwrap_or(false),
